@@ -1,5 +1,6 @@
 SPECIFICATION Spec
 CONSTANTS
   Menus <- MenusGenT
+  FixTime = TRUE
 INVARIANTS Emit
 CHECK_DEADLOCK FALSE
